@@ -90,6 +90,27 @@ impl<R: Registry> VxRawTable<R> {
             r is Some ==> *r->0 == old(self)@[key] && final(self)@ == old(self)@.insert(key, *final(r->0)),
             r is None ==> final(self)@ == old(self)@,
     { unimplemented!() }
+    /// R14: a ghost enumeration of the stored keys (hashbrown iterates every element once, in an
+    /// unspecified order)
+    pub open spec fn enumerates(&self, keys: Seq<archetype::IdentifierRef<R>>) -> bool {
+        &&& forall|i: int, j: int| 0 <= i < j < keys.len() ==> keys[i] != keys[j]
+        &&& forall|k: archetype::IdentifierRef<R>| self@.dom().contains(k) == keys.contains(k)
+    }
+    #[verifier::external_body]
+    pub fn vx_keys(&self) -> (r: Ghost<Seq<archetype::IdentifierRef<R>>>)
+        ensures self.enumerates(r@), r@.len() <= usize::MAX { unimplemented!() }
+    #[verifier::external_body]
+    pub fn vx_len(&self, keys: Ghost<Seq<archetype::IdentifierRef<R>>>) -> (n: usize)
+        requires self.enumerates(keys@),
+        ensures n == keys@.len() { unimplemented!() }
+    #[verifier::external_body]
+    pub fn vx_nth(&self, i: usize, keys: Ghost<Seq<archetype::IdentifierRef<R>>>) -> (r: &archetype::Archetype<R>)
+        requires self.enumerates(keys@), i < keys@.len(),
+        ensures *r == self@[keys@[i as int]] { unimplemented!() }
+    #[verifier::external_body]
+    pub fn vx_nth_mut(&mut self, i: usize, keys: Ghost<Seq<archetype::IdentifierRef<R>>>) -> (r: &mut archetype::Archetype<R>)
+        requires old(self).enumerates(keys@), i < keys@.len(),
+        ensures *r == old(self)@[keys@[i as int]], final(self)@ == old(self)@.insert(keys@[i as int], *final(r)) { unimplemented!() }
     /// `insert_entry`: hashbrown requires that no equal element is present
     #[verifier::external_body]
     pub fn vx_insert_entry(&mut self, hash: u64, value: archetype::Archetype<R>) -> (r: &mut archetype::Archetype<R>)
@@ -184,6 +205,67 @@ impl<R: Registry> Archetypes<R> {
 }
 '''
 
+CLEAR_BODY_PROOF = r'''proof {
+                let k = vx_k;
+                let t0 = vx_a0@[k];
+                assert(self@.dom() =~= vx_a0@.dom());
+                assert forall|j: int| vx_i1 + 1 <= j < vx_n1 implies (#[trigger] self@[vx_keys1@[j]]) == vx_a0@[vx_keys1@[j]] by {
+                    assert(vx_keys1@[j] != k);
+                }
+                assert forall|j: int| 0 <= j < vx_i1 + 1 implies (#[trigger] self@[vx_keys1@[j]]).wf() && self@[vx_keys1@[j]].length == 0 && self@[vx_keys1@[j]].key() == vx_keys1@[j] by {
+                    if j < vx_i1 { assert(vx_keys1@[j] != k); }
+                }
+                // tables still to do keep agreeing: their identifiers are not the ones just released
+                assert forall|j: int| vx_i1 + 1 <= j < vx_n1 implies (#[trigger] vx_a0@[vx_keys1@[j]]).agrees(entity_allocator) by {
+                    let t = vx_a0@[vx_keys1@[j]];
+                    assert(vx_a0@.dom().contains(vx_keys1@[j])) by { assert(vx_keys1@.contains(vx_keys1@[j])); }
+                    assert(t.agrees(&vx_pre_alloc));
+                    assert(t.key() == vx_keys1@[j]);
+                    assert forall|r: int| 0 <= r < t.length implies entity_allocator.resolves(#[trigger] t.ids()[r])
+                        && entity_allocator.view()[t.ids()[r]] == (Location { identifier: t.key(), index: r as usize }) by {
+                        let i = t.ids()[r];
+                        assert(vx_pre_alloc.resolves(i));
+                        if t0.ids().contains(i) {
+                            let q = choose|q: int| 0 <= q < t0.ids().len() && t0.ids()[q] == i;
+                            assert(vx_pre_alloc.view()[t0.ids()[q]].identifier == t0.key());
+                        }
+                    }
+                }
+                assert forall|i: entity::Identifier| entity_allocator.resolves(i) == (vx_alloc0.resolves(i) && !(exists|j: int, r: int| 0 <= j < vx_i1 + 1 && 0 <= r < vx_a0@[vx_keys1@[j]].length && #[trigger] vx_a0@[vx_keys1@[j]].ids()[r] == i)) by {
+                    assert(entity_allocator.resolves(i) == (vx_pre_alloc.resolves(i) && !t0.ids().contains(i)));
+                    if t0.ids().contains(i) {
+                        let q = choose|q: int| 0 <= q < t0.ids().len() && t0.ids()[q] == i;
+                        assert(vx_a0@[vx_keys1@[vx_i1 as int]].ids()[q] == i);
+                    }
+                    if exists|j: int, r: int| 0 <= j < vx_i1 + 1 && 0 <= r < vx_a0@[vx_keys1@[j]].length && #[trigger] vx_a0@[vx_keys1@[j]].ids()[r] == i {
+                        let (j, r) = choose|j: int, r: int| 0 <= j < vx_i1 + 1 && 0 <= r < vx_a0@[vx_keys1@[j]].length && #[trigger] vx_a0@[vx_keys1@[j]].ids()[r] == i;
+                        if j == vx_i1 { assert(t0.ids()[r] == i); }
+                    }
+                }
+            }'''
+
+CLEAR_END_PROOF = r'''proof {
+            assert(self@.dom() =~= vx_a0@.dom());
+            assert forall|k: archetype::IdentifierRef<R>| self@.dom().contains(k) implies (#[trigger] self@[k]).wf() && self@[k].length == 0 && self@[k].key() == k by {
+                assert(vx_keys1@.contains(k));
+                let j = choose|j: int| 0 <= j < vx_keys1@.len() && vx_keys1@[j] == k;
+                assert(self@[vx_keys1@[j]].length == 0);
+            }
+            assert forall|i: entity::Identifier| entity_allocator.resolves(i) == (vx_alloc0.resolves(i) && !vx_stored(vx_a0@, i)) by {
+                if vx_stored(vx_a0@, i) {
+                    let (k, r) = choose|k: archetype::IdentifierRef<R>, r: int| vx_a0@.dom().contains(k) && 0 <= r < vx_a0@[k].length && #[trigger] vx_a0@[k].ids()[r] == i;
+                    assert(vx_keys1@.contains(k));
+                    let j = choose|j: int| 0 <= j < vx_keys1@.len() && vx_keys1@[j] == k;
+                    assert(vx_a0@[vx_keys1@[j]].ids()[r] == i);
+                }
+                if exists|j: int, r: int| 0 <= j < vx_n1 && 0 <= r < vx_a0@[vx_keys1@[j]].length && #[trigger] vx_a0@[vx_keys1@[j]].ids()[r] == i {
+                    let (j, r) = choose|j: int, r: int| 0 <= j < vx_n1 && 0 <= r < vx_a0@[vx_keys1@[j]].length && #[trigger] vx_a0@[vx_keys1@[j]].ids()[r] == i;
+                    assert(vx_keys1@.contains(vx_keys1@[j]));
+                    assert(vx_a0@.dom().contains(vx_keys1@[j]));
+                }
+            }
+        }'''
+
 # clause texts shared with unit V-world's assumed contracts (same strings on both sides)
 def lookup_ensures(bits):
     return [
@@ -260,7 +342,44 @@ def build():
                     ("C13.archs.keyed", "final(self).inv_keyed()")] + lookups_ens("final(self)@.dom()"),
            hints=[Hint("start", "proof { vx_axiom_fresh_table(&self.raw_archetypes, &archetype); }")],
            props=["C13", "C11", "C10"]),
+        Fn(AS, IMPL, "clear",
+           requires=[("pre.archs_keyed", "old(self).inv_keyed()"),
+                     ("pre.tables_ok", "vx_tables_ok(old(self)@, old(entity_allocator))"),
+                     ("pre.alloc_wf", "old(entity_allocator).wf()")],
+           ensures=[("C01.clear.dom", "final(self)@.dom() == old(self)@.dom()"),
+                    ("C01.clear.tables_empty", "forall|k: archetype::IdentifierRef<R>| final(self)@.dom().contains(k) ==> (#[trigger] final(self)@[k]).wf() && final(self)@[k].length == 0 && final(self)@[k].key() == k"),
+                    ("C13.clear.alloc_wf", "final(entity_allocator).wf()"),
+                    ("C02.clear.released", "forall|i: entity::Identifier| final(entity_allocator).resolves(i) == (old(entity_allocator).resolves(i) && !vx_stored(old(self)@, i))"),
+                    ("frame.slots_len", "final(entity_allocator).slots@.len() == old(entity_allocator).slots@.len()"),
+                    ("archs.clear.lookups", "final(self).foreign_identifier_lookup == old(self).foreign_identifier_lookup && final(self).type_id_lookup == old(self).type_id_lookup")],
+           loops=[Loop(invariant=[
+               ("clear.enum", "vx_keys1@.len() == vx_n1 && vx_i1 <= vx_n1 && self.raw_archetypes.enumerates(vx_keys1@) && vx_a0.raw_archetypes.enumerates(vx_keys1@)"),
+               ("clear.dom", "self@.dom() == vx_a0@.dom()"),
+               ("clear.lookups", "self.foreign_identifier_lookup == vx_a0.foreign_identifier_lookup && self.type_id_lookup == vx_a0.type_id_lookup"),
+               ("clear.done", "forall|j: int| 0 <= j < vx_i1 ==> (#[trigger] self@[vx_keys1@[j]]).wf() && self@[vx_keys1@[j]].length == 0 && self@[vx_keys1@[j]].key() == vx_keys1@[j]"),
+               ("clear.todo", "forall|j: int| vx_i1 <= j < vx_n1 ==> (#[trigger] self@[vx_keys1@[j]]) == vx_a0@[vx_keys1@[j]]"),
+               ("clear.todo_agrees", "forall|j: int| vx_i1 <= j < vx_n1 ==> (#[trigger] vx_a0@[vx_keys1@[j]]).agrees(entity_allocator)"),
+               ("clear.alloc_wf", "entity_allocator.wf()"),
+               ("clear.released", "forall|i: entity::Identifier| entity_allocator.resolves(i) == (vx_alloc0.resolves(i) && !(exists|j: int, r: int| 0 <= j < vx_i1 && 0 <= r < vx_a0@[vx_keys1@[j]].length && #[trigger] vx_a0@[vx_keys1@[j]].ids()[r] == i))"),
+               ("clear.values", "forall|i: entity::Identifier| entity_allocator.resolves(i) ==> entity_allocator.view()[i] == vx_alloc0.view()[i]"),
+               ("clear.slots_len", "entity_allocator.slots@.len() == vx_alloc0.slots@.len()"),
+               ("clear.pre", "vx_a0.inv_keyed() && vx_tables_ok(vx_a0@, &vx_alloc0)"),
+           ], decreases="vx_n1 - vx_i1")],
+           hints=[Hint("start", "let ghost vx_a0 = *self; let ghost vx_alloc0 = *entity_allocator;"),
+                  Hint("before", "proof { assert forall|j: int| 0 <= j < vx_n1 implies (#[trigger] vx_a0@[vx_keys1@[j]]).agrees(entity_allocator) by { assert(vx_keys1@.contains(vx_keys1@[j])); assert(vx_a0@.dom().contains(vx_keys1@[j])); } }",
+                       anchor=r"while vx_i1 < vx_n1"),
+                  Hint("before", "let ghost vx_pre_alloc = *entity_allocator; let ghost vx_k = vx_keys1@[vx_i1 as int]; proof { assert(vx_a0@.dom().contains(vx_k)) by { assert(vx_keys1@.contains(vx_k)); } }",
+                       anchor=r"unsafe \{ archetype\.clear\(entity_allocator\) \}"),
+                  Hint("after", CLEAR_BODY_PROOF, anchor=r"archetype\.clear\(entity_allocator\)"),
+                  Hint("end", CLEAR_END_PROOF)],
+           props=["C01", "C02", "C13"]),
     ])
+    u.for_rewrites += [
+        (r"for (\w+) in self\.iter_mut\(\)",
+         "let vx_keys# = self.raw_archetypes.vx_keys(); let vx_n# = self.raw_archetypes.vx_len(vx_keys#); let mut vx_i#: usize = 0;",
+         "vx_i# < vx_n#", r"let \1 = self.raw_archetypes.vx_nth_mut(vx_i#, vx_keys#);", "vx_i# += 1;",
+         "R14: `for t in self.iter_mut()` over the hashbrown table -> index loop over a ghost enumeration of its keys (every element once, unspecified order)"),
+    ]
     u.pre_rewrites += [
         (r"TypeId::of::<E>\(\)", "vx_type_id::<E>()", "R8: TypeId of the canonical entity type"),
         (r"R::create_archetype_identifier\(\)", "vx_create_archetype_identifier::<R, E>()", "R6/R8: canonical identifier of the entity type (K-bits / type-level)"),
